@@ -13,6 +13,7 @@ pub mod c08;
 pub mod c20;
 pub mod fl;
 pub mod miri_lane;
+pub mod purity;
 pub mod c09;
 pub mod c10;
 pub mod c11;
